@@ -52,6 +52,12 @@ Definition ev_ordered (l : list N) : Prop :=
   l = [] \/ l = [EV_ADD_PRE] \/ l = [EV_ADD_PRE; EV_ADD_POST] \/ l = [EV_ADD_PRE; EV_REM_POST] \/
   l = [EV_ADD_PRE; EV_ADD_POST; EV_REM_POST].
 
+(* the callbacks actually invoked are a subsequence of the events delivered *)
+Inductive subseq {A : Type} : list A -> list A -> Prop :=
+| ss_nil : subseq [] []
+| ss_skip : forall x l1 l2, subseq l1 l2 -> subseq l1 (x :: l2)
+| ss_take : forall x l1 l2, subseq l1 l2 -> subseq (x :: l1) (x :: l2).
+
 (* ---- threads ---- *)
 Inductive who := WStart | WReap.
 
@@ -119,7 +125,7 @@ Inductive plabel :=
 | LRead (w : who) (want cb1 cb2 cb3 : bool)  (* run_cb's first section: s_want_evs and the three cb_fn != NULL as they are now *)
 | LEnter (w : who)                    (* run_cb's serialize section up to (not including) the user's code *)
 | LExit (w : who)                     (* the user's callback returns; serialize released *)
-| LMarkPre                            (* ghost: the callback closes its own pipe inside ADD_PRE *)
+| LMarkPre                            (* nng_pipe_close(own pipe) from the start thread's callback (ghost mark if that is ADD_PRE) *)
 | LCheck
 | LProto (ok : bool)                  (* the protocol's pipe_start returns 0 / an error *)
 | LClose                              (* nni_pipe_close by anybody *)
@@ -161,10 +167,11 @@ Definition pstep (p : pipe) (l : plabel) : pipe :=
   | LExit WReap =>
       match p_rpc p with RRemInCb => after_rem p | _ => p end
   | LMarkPre =>
+      let q := close_pipe p in
       match p_spc p with
-      | SPreInCb => mkPipe (p_last p) (p_closed p) (p_spc p) (p_rpc p) (p_onsock p) (p_pstarted p)
-                           (g_fired p) (g_cbs p) (g_closed_at_check p) true
-      | _ => p end
+      | SPreInCb => mkPipe (p_last q) (p_closed q) (p_spc q) (p_rpc q) (p_onsock q) (p_pstarted q)
+                           (g_fired q) (g_cbs q) (g_closed_at_check q) true
+      | _ => q end
   | LCheck =>
       match p_spc p with
       | SCheck => mkPipe (p_last p) (p_closed p) (if p_closed p then SDone else SProto) (p_rpc p) (p_onsock p)
@@ -295,8 +302,10 @@ Definition sstep (s : sock) (o : pop) : sock :=
           if Nat.eqb i j && (match w, w' with WStart, WStart => true | WReap, WReap => true | _, _ => false end) then
             match a with
             | CbClose q =>
-                let s1 := plocal s q LClose in
-                if Nat.eqb q i && (match w with WStart => true | WReap => false end) then plocal s1 i LMarkPre else s1
+                (* closing its own pipe from the start thread's callback: LMarkPre = the close, plus the ghost
+                   mark when that callback is the ADD_PRE one *)
+                if Nat.eqb q i && (match w with WStart => true | WReap => false end) then plocal s i LMarkPre
+                else plocal s q LClose
             | CbNotify ev on => set_cb s ev on
             end
           else s
